@@ -507,6 +507,9 @@ class Arena:
                             pass
             if retried is not None and "id" in retried:
                 results[retried["id"]] = retried
+            elif hang and p2.returncode not in (0, 9, None):
+                # slow because it was busy overflowing the stack: the repeat shows the death
+                incidents.append({"job": culprit, "kind": "died", "rc": p2.returncode})
             else:
                 incidents.append({"job": culprit, "kind": "hang" if hang else "died", "rc": p.returncode})
             start = start + done + 1
